@@ -162,6 +162,10 @@ def batch(
     known_example: Dict[Tuple, str] = {}
     samples: List[Any] = []
     capped = False
+    first_digests: Dict[int, str] = {}
+    recheck_n = 24 if tier == "quick" else 160
+    recheck_done = 0
+    recheck_bad: List[int] = []
 
     if hasattr(prop, "warm"):
         prop.warm()  # load corpora before forking so children share them
@@ -197,6 +201,8 @@ def batch(
                     if digests_out:
                         digests_all[r["seed"]] = r["digest"]
                     digest_set.add(int(r["digest"][:16], 16))
+                    if len(first_digests) < 4 * recheck_n and r["verdict"] == "ok":
+                        first_digests[r["seed"]] = r["digest"]
                     merge_counts(agg_faults, r["faults"])
                     merge_counts(agg_probes, r["probes"])
                     if len(states) < 2_000_000:
@@ -214,6 +220,16 @@ def batch(
                         errors.append(r)
                     if "case" in r and r["verdict"] == "ok" and len(samples) < 3:
                         samples.append({"seed": r["seed"], "cfg": r["case"].get("cfg"), "ops": r["case"]["ops"][:25]})
+        # determinism re-check inside every batch: a sample of seeds is executed again (other child,
+        # other position in its chunk, other heap history) and must give the same event digest
+        if not broken and first_digests:
+            sample = sorted(first_digests)[:: max(1, len(first_digests) // recheck_n)][:recheck_n]
+            futs = [ex.submit(_chunk, pid, list(reversed(sample[i::4])), tier, False, chunk_timeout) for i in range(4)]
+            for fut in futs:
+                for r in fut.result():
+                    recheck_done += 1
+                    if r["digest"] != first_digests.get(r["seed"]):
+                        recheck_bad.append(r["seed"])
     except Exception as e:
         broken = broken or f"{type(e).__name__}: {e}"
     finally:
@@ -250,6 +266,8 @@ def batch(
             out_lines.append(f"  signature={list(sig)} runs_with_this_signature={len(rs)} detail={r.get('detail', '')[:500]}")
         rc = 1
 
+    if recheck_bad:
+        broken = (broken or "") + f" determinism re-check failed for seeds {recheck_bad[:5]}"
     if errors or broken:
         for r in errors[:3]:
             print(f"[dsim] HARNESS ERROR seed={r['seed']}:\n{r.get('error')}", file=sys.stderr)
@@ -287,6 +305,7 @@ def batch(
                 "stub_components": list(getattr(prop, "STUB", [])),
                 "known_findings_seen": {"|".join(k): v for k, v in sorted(known_seen.items())},
                 "harness_errors": len(errors) + (1 if broken else 0),
+                "determinism_recheck": {"seeds_rerun_in_other_children": recheck_done, "digest_mismatches": len(recheck_bad)},
                 "pythonhashseed": os.environ.get("PYTHONHASHSEED"),
                 "exhaustive": False,
             },
